@@ -57,13 +57,14 @@ ASSUMPTIONS = [
 ]
 BUDGET = {"quick": 30, "thorough": 480}
 FLOORS = {
-    "quick": {"evaluations": 2000, "distinct_nontrivial": 1800,
-              "counters": {"read_bytes_calls": 20000, "blocks_computed": 80000, "files_concat_checked": 20000,
-                           "internal_boundaries_checked": 15000, "read_text_calls": 12000,
-                           "read_text_blocksize_int": 9000, "read_text_blocksize_none": 2500,
-                           "read_text_include_path": 700, "read_text_files_per_partition": 500,
-                           "lines_compared": 40000},
-              "sets": {"delimiters": 8, "blockings": 300},
+    "quick": {"evaluations": 1500, "distinct_nontrivial": 1350,
+              "counters": {"read_bytes_calls": 15000, "blocks_computed": 40000, "files_concat_checked": 18000,
+                           "files_split_into_several_nonempty_blocks": 4500,
+                           "internal_boundaries_checked": 10000, "read_text_calls": 11000,
+                           "read_text_blocksize_int": 8000, "read_text_blocksize_none": 2800,
+                           "read_text_include_path": 1600, "read_text_files_per_partition": 650,
+                           "lines_compared": 600000},
+              "sets": {"delimiters": 8, "blockings": 6000},
               "max_skipped_fraction": 0.1},
     "thorough": {"evaluations": 15000, "distinct_nontrivial": 14000,
                  "counters": {"read_bytes_calls": 200000, "blocks_computed": 900000, "files_concat_checked": 200000,
